@@ -611,7 +611,13 @@ pub fn column_read(
     use super::ColumnIteratorImpl;
     guarded(|| {
         block_on(async {
-            let ty = if strings {
+            // encode >= 10: a BLOB column (the bytes of the same strings), encoded with `encode -
+            // 10`
+            let blob = strings && encode >= 10;
+            let encode = encode % 10;
+            let ty = if blob {
+                DataType::Blob
+            } else if strings {
                 DataType::String
             } else {
                 DataType::Int32
@@ -628,7 +634,21 @@ pub fn column_read(
                 },
                 record_first_key: false,
             };
-            let array = if strings {
+            let array = if blob {
+                let mut b = crate::array::BlobArrayBuilder::new();
+                for it in items {
+                    let bytes = it.map(|v| match v {
+                        1_000_000.. => format!("L{}", "x".repeat((v - 1_000_000) as usize)),
+                        _ => format!("s{v}"),
+                    });
+                    b.push(
+                        bytes
+                            .as_ref()
+                            .map(|s| crate::types::BlobRef::new(s.as_bytes())),
+                    );
+                }
+                ArrayImpl::new_blob(b.finish())
+            } else if strings {
                 let mut b = StringArrayBuilder::new();
                 for it in items {
                     // v >= 1_000_000 stands for a long string: 'L' followed by v - 1_000_000 times
@@ -683,6 +703,23 @@ pub fn column_read(
                                         }
                                         Some(_) => -1,
                                         None => s[1..].parse::<i32>().unwrap_or(-1),
+                                    })
+                                })
+                                .collect(),
+                            ArrayImpl::Blob(a) => (a.to_vec().into_iter())
+                                .map(|s| {
+                                    s.map(|s| {
+                                        let s = String::from_utf8_lossy(s.as_ref()).to_string();
+                                        match s.strip_prefix('L') {
+                                            Some(xs) if xs.bytes().all(|b| b == b'x') => {
+                                                1_000_000 + xs.len() as i32
+                                            }
+                                            Some(_) => -1,
+                                            None => s
+                                                .get(1..)
+                                                .and_then(|t| t.parse::<i32>().ok())
+                                                .unwrap_or(-1),
+                                        }
                                     })
                                 })
                                 .collect(),
